@@ -360,7 +360,7 @@ func TestCheck(t *testing.T) {
 		if rt.Thorough() {
 			L = 7
 		}
-		docs := []string{`{"a":{"b":[1,{"a":2,"b":null}],"1":"x"},"b":[[3],[]],"0":0,"ab":{"a":[0,1]}}`, `[{"a":1},[0,1,[2]],"s",null,{"b":{"a":[]}}]`, `{"a":[{"b":1},{"b":2},{"a":3}],"b":"a"}`}
+		docs := []string{`{"a":{"b":[1,{"a":2,"b":null}],"1":"x"},"b":[[3],[]],"0":0,"ab":{"a":[0,1]}}`, `[{"a":1},[0,1,[2]],"s",null,{"b":{"a":[]}}]`, `{"a":[{"b":1},{"b":2},{"a":3}],"b":"a"}`, `[0,1,2,3,4,5,6,7,8,9,10,11,12]`, `{"a":[0,1,2,3,4,5,6,7,8,9,10,11,12],"b":[[0,1,2,3,4,5,6,7,8,9,10,11]]}`}
 		var idx, mine int64
 		buf := make([]byte, 0, L)
 		fails := 0
@@ -424,8 +424,27 @@ func definitelyMalformed(s string) bool {
 	if !strings.Contains(s, "'") && strings.Count(s, `"`)%2 == 1 {
 		return true // a double-quoted name (after a dot) is left open
 	}
-	if !strings.ContainsAny(s, "'\"") && strings.Count(s, "[") != strings.Count(s, "]") {
-		return true
+	if !strings.ContainsAny(s, "'\"") {
+		if strings.Count(s, "[") != strings.Count(s, "]") {
+			return true
+		}
+		// an unquoted subscript is * or a decimal number
+		rest := s
+		for {
+			i := strings.IndexByte(rest, '[')
+			if i < 0 {
+				break
+			}
+			j := strings.IndexByte(rest[i:], ']')
+			if j < 0 {
+				break
+			}
+			sub := rest[i+1 : i+j]
+			if sub != "*" && (sub == "" || strings.Trim(sub, "0123456789") != "") {
+				return true
+			}
+			rest = rest[i+j+1:]
+		}
 	}
 	return false
 }
